@@ -610,13 +610,13 @@ class Frame:
             if name == "box_assume_init_into_vec_unsafe" and len(t.get("args", [])) == 1:
                 # `vec![a, b, c]` (this toolchain's expansion): the array literal is written into a fresh uninitialised box, which then
                 # becomes the Vec — the Vec's initial contents are that array
-                pl0 = t["args"][0].get("m") or t["args"][0].get("c")
-                if pl0 and not pl0["p"]:
-                    for blk_ in self.body.blocks:
-                        for st_ in blk_["s"]:
-                            d_, r_ = st_.get("d"), st_.get("r") or {}
-                            if d_ and d_["l"] == pl0["l"] and "*" in d_["p"] and r_.get("k") == "agg" and r_["ak"].get("t") == "array":
-                                return self.rvalue_term(r_)
+                # (the store goes through a raw-pointer copy of the box, in the block that ends with this call)
+                n_ = cga[0] if cga else None
+                stores_ = [st_ for st_ in self.body.blocks[bb]["s"]
+                           if st_.get("d") and st_["d"]["p"] and st_["d"]["p"][0] == "*" and (st_.get("r") or {}).get("k") == "agg"
+                           and st_["r"]["ak"].get("t") == "array" and len(st_["r"].get("ops", [])) == n_]
+                if len(stores_) == 1:
+                    return self.rvalue_term(stores_[0]["r"])
             if name == "from" and len(args) == 1 and (t.get("r") or "").startswith("<alloc::vec::Vec<T") and "From<[T; N]>" in (t.get("r") or ""):
                 return args[0]     # Vec::from([a, b, c]): the same elements in the same order
             if name == "size_of" and not args and t.get("ga"):
